@@ -46,6 +46,7 @@ func (c15) Plan(tier string) []core.Segment {
 		core.Segment{Gen: "c15lines", Count: scale(tier, 600_000, 30_000_000), Desc: "random longer lines over the union of the rule alphabets, digit runs 1..12, long fences"},
 		core.Segment{Gen: "small", Profile: q("uri", 5, 6), Count: gen.Size("small", q("uri", 5, 6)), Exhaustive: true, Batch: 100000},
 		core.Segment{Gen: "small", Profile: q("email", 7, 8), Count: gen.Size("small", q("email", 7, 8)), Exhaustive: true, Batch: 100000},
+		core.Segment{Gen: "index", Profile: "c15-uri-runes", Count: 0x110000 / 256, Exhaustive: true, Desc: "every code point (256 per case) through NormalizeURI", Batch: 300},
 		core.Segment{Gen: "c15uri", Count: scale(tier, 200_000, 8_000_000), Desc: "random URIs / e-mail addresses incl. 62/63/64-character labels"},
 	)
 	return segs
@@ -202,6 +203,31 @@ func referenceLine(t []byte) lineRef {
 
 func (c15) Check(ctx *core.Ctx, c *core.Case) {
 	switch {
+	case c.Gen == "index" && strings.HasSuffix(c.Note, "c15-uri-runes"):
+		// every code point of one 256-block, alone and after an ASCII prefix, through
+		// NormalizeURI (seeded change C15-h: a rune classified by its low byte, which an
+		// alphabet with Latin-1 letters only cannot see)
+		for lo := 0; lo < 256; lo++ {
+			r := rune(c.Index*256 + uint64(lo))
+			if r >= 0xD800 && r <= 0xDFFF || r > 0x10FFFF {
+				continue
+			}
+			for _, u := range []string{string(r), "/a" + string(r) + "b%4" + string(r)} {
+				n := cm.NormalizeURI(u)
+				ctx.Inc("uri_calls")
+				if !reURIOut.MatchString(n) {
+					ctx.Violation("uri_charset", "NormalizeURI(%q) = %q contains something other than RFC 3986 reserved/unreserved characters and well-formed percent-escapes (code point U+%04X)", u, n, r)
+					return
+				}
+				if nn := cm.NormalizeURI(n); nn != n {
+					ctx.Violation("uri_idempotent", "NormalizeURI is not idempotent: %q -> %q -> %q", u, n, nn)
+					return
+				}
+			}
+		}
+		ctx.Inc("uri_code_point_blocks")
+		ctx.NonTrivial()
+		return
 	case c.Gen == "index":
 		checkClassifiers(ctx, byte(c.Index))
 		if c.Index == 0 {
